@@ -99,6 +99,7 @@ type Sched struct {
 	Choices []string // chosen task per step (the schedule)
 	steps   int
 	seq     uint64
+	sinceHarness int
 
 	// statistics
 	Switches int
@@ -115,7 +116,18 @@ func (e *ErrDeadlock) Error() string { return "deadlock: " + e.State }
 // ErrBudget is reported when the step budget is exhausted.
 type ErrBudget struct{ Steps int }
 
-func (e *ErrBudget) Error() string { return fmt.Sprintf("step budget exhausted after %d steps", e.Steps) }
+func (e *ErrBudget) Error() string {
+	return fmt.Sprintf("step budget exhausted: %d consecutive scheduling steps inside the code under test without any API call returning", e.Steps)
+}
+
+func enginePoint(p string) bool {
+	for _, pre := range []string{"commit:", "tx:", "begin:", "close:", "cond:", "writer:", "sync:", "disk:"} {
+		if strings.HasPrefix(p, pre) {
+			return true
+		}
+	}
+	return false
+}
 
 // ErrReplay is reported when a recorded schedule can not be followed.
 type ErrReplay struct{ Msg string }
@@ -124,7 +136,7 @@ func (e *ErrReplay) Error() string { return "replay diverged: " + e.Msg }
 
 func New(rng *Rand, cfg Config) *Sched {
 	if cfg.MaxSteps == 0 {
-		cfg.MaxSteps = 200000
+		cfg.MaxSteps = 100000
 	}
 	if cfg.BgWeight == 0 {
 		cfg.BgWeight = 1
@@ -281,9 +293,9 @@ func (s *Sched) Run() error {
 			s.mu.Unlock()
 			return &ErrDeadlock{State: st}
 		}
-		if s.steps >= s.cfg.MaxSteps {
+		if s.sinceHarness >= s.cfg.MaxSteps {
 			s.mu.Unlock()
-			return &ErrBudget{Steps: s.steps}
+			return &ErrBudget{Steps: s.sinceHarness}
 		}
 		sort.Slice(cands, func(i, j int) bool { return cands[i].name < cands[j].name })
 		var pick *task
@@ -312,6 +324,14 @@ func (s *Sched) Run() error {
 		s.last = pick
 		pick.parked = false
 		s.steps++
+		// bounded liveness: count scheduling steps that happen inside the code
+		// under test (hook and disk yield points) since the last step at which a
+		// harness task was between two API calls
+		if enginePoint(pick.point) {
+			s.sinceHarness++
+		} else {
+			s.sinceHarness = 0
+		}
 		s.Trace = append(s.Trace, Step{pick.name, pick.point})
 		s.Choices = append(s.Choices, pick.name)
 		s.PointCnt[pick.point]++
